@@ -31,6 +31,7 @@ type Job struct {
 	QTimeout int      // ms
 	Only     []string // assertion-id prefixes that belong to this property (others are judged by their own property's check)
 	Reach    []string // reachability witnesses that must be hit on some path
+	Race     bool     // native replay under the race detector (lock-discipline findings)
 	NoReplay bool     // native replay impossible (engine-only observation); reason in Note
 	Note     string
 	Bounds   string // human-readable bounds of this job
@@ -504,7 +505,11 @@ func (r *replayer) build() bool {
 	ovPath := filepath.Join(work, "overlay.json")
 	os.WriteFile(ovPath, ovb, 0644)
 	r.bin = filepath.Join(work, "replay.test")
-	cmd := exec.Command("go", "test", "-c", "-vet=off", "-overlay", ovPath, "-o", r.bin, r.job.Pkg)
+	args := []string{"test", "-c", "-vet=off", "-overlay", ovPath, "-o", r.bin}
+	if r.job.Race {
+		args = append(args, "-race")
+	}
+	cmd := exec.Command("go", append(args, r.job.Pkg)...)
 	cmd.Dir = repoDir()
 	cmd.Env = goEnv()
 	out, err := cmd.CombinedOutput()
@@ -577,6 +582,11 @@ func (r *replayer) replay(tapePath string, f interp.Failure) (bool, string) {
 			return true, ""
 		}
 		return false, "no crash natively"
+	case "race":
+		if strings.Contains(out, "DATA RACE") || strings.Contains(out, "concurrent map") {
+			return true, ""
+		}
+		return false, "race detector silent natively"
 	case "deadlock":
 		if timedOut || strings.Contains(out, "all goroutines are asleep") || strings.Contains(out, "test timed out") {
 			return true, ""
@@ -594,9 +604,9 @@ func (r *replayer) replaySample(tapePath string) (bool, string) {
 	if timedOut {
 		return false, "native run timed out"
 	}
-	if strings.Contains(out, "VERIF-ASSERT-FAIL") {
+	if strings.Contains(out, "VERIF-ASSERT-FAIL") || strings.Contains(out, "DATA RACE") {
 		os.WriteFile(strings.TrimSuffix(tapePath, ".json")+".native.txt", []byte(out), 0644)
-		return false, "assertion failed natively: " + lastLines(out, 3)
+		return false, "assertion failed or race reported natively: " + lastLines(out, 3)
 	}
 	if strings.Contains(out, "VERIF-REPLAY-DIVERGED") {
 		return false, "tape diverged"
